@@ -77,6 +77,7 @@ def eval_clause_concrete(meta, name, r):
     it = Interp(ctx, mod.REGISTRY, c)
     it.env_over.update(c.env)
     env = dict(r["env"])
+    ctx.ghost.update(env.pop("__ghost__", {}))
     env["result"] = r.get("result")
     env = cm.spec_env(it, c, env)
     func = RepoFunc(ModuleSrc.get(c.file), c.qualname, None)
